@@ -43,7 +43,7 @@ func freePort() (int, error) {
 
 // Options of the in-process server.
 type Options struct {
-	SnapshotCacheSize int  // 0 keeps the default
+	SnapshotCacheSize int // 0 keeps the default
 	SnapshotDisableGC bool
 	ClusterSecret     string
 	UseDefaultProject *bool
